@@ -103,6 +103,70 @@ def corpus(chk, tag):
         out.append(Case(B.ja(n) + B.mov(0, 1) * n + B.mov(3, 0) + B.lddw(0, 0x1234567800000009) + B.alu('mod', 0, src=3, w=64) + B.EXIT, fam='long', budget=50))
     for _ in range(2500 if thorough else 400):
         out.append(Case(C01.random_program(rng, 4 + rng.below(20)), fam='random', budget=2000))
+    # 5. control-flow graph shapes: forward jumps, bounded back edges, dead code, fall-through-only blocks, jumps over wide loads,
+    #    consecutive jumps, jumps to the next instruction; r0 accumulates a different constant per block, so the path is visible
+    for _ in range(6000 if thorough else 1200):
+        out.append(Case(cfg_program(rng, 2 + rng.below(9)), fam='cfg-shape', budget=5000))
+    return out
+
+
+def cfg_program(rng, k):
+    conds = list(B.JMP_OPS)
+    blocks = []          # (body bytes, terminator kind, target block or None, cond details)
+    for i in range(k):
+        body = B.alu('add', 0, imm=rng.choice([1, 3, 7, 0x10, 0x100, 0x1000, 0x10000]) * (i + 1))
+        if rng.chance(1, 3):
+            body += B.lddw(3 + rng.below(3), rng.next())
+        if rng.chance(1, 4):
+            body += B.alu('xor', 0, imm=rng.below(2 ** 16))
+        if i == k - 1:
+            blocks.append((body, 'exit', None, None))
+            continue
+        t = rng.below(10)
+        later = i + 1 + rng.below(k - i - 1)
+        if t < 2:
+            blocks.append((body, 'fall', None, None))
+        elif t < 4:
+            blocks.append((body, 'ja', later, None))
+        elif t < 7:
+            blocks.append((body, 'jc', later, (rng.choice(conds), rng.choice([32, 64]), rng.choice([0, 1, 2, 5, 2 ** 31 - 1]))))
+        elif t < 8:
+            blocks.append((body, 'exit', None, None))
+        elif t < 9 and i > 0:
+            blocks.append((body, 'back', rng.below(i + 1), None))        # counted back edge (at most 3 times)
+        else:
+            blocks.append((body, 'jc2', later, (rng.choice(conds), rng.choice(conds))))   # two consecutive conditional jumps
+    # layout: sizes in instructions
+    def tsize(kind):
+        return {'fall': 0, 'ja': 1, 'jc': 1, 'exit': 1, 'back': 2, 'jc2': 2}[kind]
+    starts = []
+    pc = 3           # preamble: mov r0, 0; mov r1, <random>; mov r2, 0
+    for body, kind, tgt, det in blocks:
+        starts.append(pc)
+        pc += len(body) // 8 + tsize(kind)
+    out = B.load_const(1, rng.choice([0, 1, 2, 5, 2 ** 31 - 1, 2 ** 32, 2 ** 64 - 1]))
+    if len(out) != 8:
+        out = B.mov(1, rng.choice([0, 1, 2, 5]))
+    out = B.mov(0, 0) + out + B.mov(2, 0)
+    pc = 3
+    for (body, kind, tgt, det) in blocks:
+        out += body
+        pc += len(body) // 8
+        if kind == 'ja':
+            out += B.ja(starts[tgt] - (pc + 1))
+        elif kind == 'jc':
+            name, w, imm = det
+            if w == 64 and name in ('jeq', 'jgt', 'jge', 'jlt', 'jle', 'jne'):
+                imm = abs(imm)
+            out += B.jmp(name, 1, starts[tgt] - (pc + 1), imm=imm, w=w)
+        elif kind == 'jc2':
+            n1, n2 = det
+            out += B.jmp(n1, 1, starts[tgt] - (pc + 1), imm=1, w=32) + B.jmp(n2, 1, 0, imm=2, w=32)
+        elif kind == 'exit':
+            out += B.EXIT
+        elif kind == 'back':
+            out += B.alu('add', 2, imm=1) + B.jmp('jlt', 2, starts[tgt] - (pc + 2), imm=3, w=32)
+        pc += tsize(kind)
     return out
 
 
